@@ -48,12 +48,12 @@ def _alarm(signum, frame):
     raise CaseTimeout()
 
 
-def timed(fn, *args):
+def timed(fn, *args, budget=None):
     """run fn(*args) under a wall-clock limit (SIGALRM; the workers are single-threaded processes) so that a regex
     gone exponential cannot hang the check: -> (result, None) or (None, 'timeout')"""
     import signal
     old = signal.signal(signal.SIGALRM, _alarm)
-    signal.setitimer(signal.ITIMER_REAL, CASE_BUDGET)
+    signal.setitimer(signal.ITIMER_REAL, budget or CASE_BUDGET)
     try:
         return fn(*args), None
     except CaseTimeout:
@@ -1254,13 +1254,13 @@ def shrink_violation(site, case, ostream):
     from mako import exceptions
 
     def parse(x):
-        r_, to = timed(lambda: Lexer(x).parse())
+        r_, to = timed(lambda: Lexer(x).parse(), budget=0.5)
         if to:
             raise CaseTimeout()
         return r_
 
     def fails(x):
-        if ostream == "oracle.timeout":
+        if ostream == "oracle.timeout" or time.time() > SHRINK_DEADLINE[0]:
             return False
         if ostream == "oracle.tiling":
             try:
@@ -1271,7 +1271,7 @@ def shrink_violation(site, case, ostream):
         if ostream == "oracle.render-inert":
             if not inert(x):
                 return False
-            r, to = timed(render_oracle_inert, x)
+            r, to = timed(render_oracle_inert, x, budget=1.0)
             return (not to) and bool(r) and r[0] == site
         if ostream == "oracle.exceptions":
             try:
@@ -1292,8 +1292,12 @@ def shrink_violation(site, case, ostream):
         return case
 
 
+SHRINK_DEADLINE = [0.0]
+
+
 def report_violations(ctx):
     """shrink, de-duplicate per (site, minimised input) and hand to the runner"""
+    SHRINK_DEADLINE[0] = time.time() + 40.0      # all shrinking together; afterwards cases are reported as found
     seen = set()
     per_site = {}
     for site, case, detail, ostream in VIOL:
@@ -1505,6 +1509,12 @@ def replay(ctx, data):
     s = case["input"] if isinstance(case, dict) else case
     if not isinstance(s, str):
         return False
+    for src, want in CANONICAL:
+        if src == s:
+            bad = doc_oracle(src, want)
+            print("canonical document: documented output %r; oracle: %s" % (want, bad or "holds"))
+            if bad:
+                return False
     r = check_batch([s], {"render": True})
     print("model:", ctx.driver().ask(LM.req_full(s)))
     print("impl :", LM.impl_lex(s))
